@@ -328,6 +328,12 @@ fn scheduled_write(f: &mut F<SendRequest>, reference: &ParsedHead, ref_bytes: &[
         let mut buf = vec![0xEEu8; size];
         rec.call();
         let was_ready = f.can_proceed();
+        if rng.chance(1, 5) {
+            // read-only views between writes
+            let _ = f.headers_map();
+            let _ = f.uri();
+            rec.cov("query/headers_map-between-writes");
+        }
         let r = f.write(&mut buf);
         rec.ev(|| format!("write(out={}) at offset {} (next unit {} bytes) -> {:?}", size, off, l, r));
         let fits = l <= size;
@@ -619,7 +625,7 @@ impl Property for P {
     fn floors(&self, _tier: Tier) -> Vec<(String, u64)> {
         [
             "unit#line/overflow/one-short", "unit#line/fits/exact", "unit#header/overflow/one-short", "unit#header/fits/exact", "unit#last+blank/overflow/one-short", "unit#last+blank/fits/exact",
-            "depth=0/body/*", "depth=0/no-body/*", "depth=1/*", "depth=2/*", "depth=3/*", "body/chunked", "body/sized", "after-complete/*", "call/with-body", "call/without-body",
+            "depth=0/body/*", "depth=0/no-body/*", "depth=1/*", "depth=2/*", "depth=3/*", "body/chunked", "body/sized", "after-complete/*", "call/with-body", "call/without-body", "query/headers_map-between-writes",
         ]
         .iter()
         .map(|k| (k.to_string(), 20))
